@@ -33,6 +33,8 @@ for d in sorted(glob.glob(os.path.join(HERE, "seeded", "*"))):
         cell += f" — result at the /repo HEAD the patch was written for; superseded at {m['superseded'].get('at_repo_head', '?')}: the patch no longer breaks the property there"
     elif m.get("checks", {}).get("rebased_patch"):
         cell += " (patch re-applied by hand to the current HEAD)"
+    if m.get("note_at_head"):
+        conf = "yes, at the HEAD it was written for — " + m["note_at_head"]
     rows.append(f"| {name} | {summary} | {needs} | {conf} | {cell} |")
 table = "| seed | change | needs | confirmed (suite passes, demo fails with / passes without) | caught by |\n|---|---|---|---|---|\n" + "\n".join(rows)
 p = os.path.join(HERE, "DESIGN.md")
